@@ -28,8 +28,8 @@ func init() {
 		},
 		Shards:      shards(8, 16),
 		Run:         runC04,
-		MinEvals:    floor(7000, 100000),
-		MinDistinct: floor(3000, 30000),
+		MinEvals:    floor(7000, 50000),
+		MinDistinct: floor(3000, 15000),
 		RequiredCells: func(string) []string {
 			cells := []string{"A/inside", "A/before-nbf", "A/after-exp", "A/on-bound", "A/decoded", "A/constructed", "A/delegation", "A/invocation", "A/exp<nbf", "A/far-future-bound",
 				"B/all-valid", "B/expired@inv"}
